@@ -37,6 +37,9 @@ CLAIMS = {
  'C15': ('model_checking',
    "TLA+ spec MsgGrammar holds the rule matrices (ESK kept per container; opt-ins for SED / GnuPG AEAD; session-key kind per container; key/signature version alignment on 7 verification paths; one-pass header vs signature; unknown/known x critical subpackets; issuer-fingerprint version; subkey version per primary version; back signature on both import paths) with non-vacuity assumptions checked by TLC, and the message grammar over packet kinds model-checked over all sequences <=4 (thorough 5). TLC emits every cell and sequence with its verdict; the harness realises each with real packets: valid ESKs of all five kinds in front of all four container kinds (GnuPG OCB container and v5 SKESK built independently), signatures with valid cryptography from a key that lies about its version, patched one-pass headers, forged signatures with subpacket ids 0..127, mixed-version certificates, bindings with missing / foreign back signatures on both representations.",
    'DESIGN.md 5/C15', TECH),
+ 'C08': ('model_checking',
+   "TLA+ spec KeyLock (abstract lock state: usage octet, S2K kind, password, integrity of blob / S2K-IV / public fields; actions set_password_with_s2k, remove_password, unlock, wire round trip, from_wire with usage 253/254/255/legacy cipher octet, tamper) is model-checked over all histories of 6 (thorough 8) actions for v4 and v6 keys; TLC emits every history of 3 (thorough 4) actions with the predicted verdict and usage octet after each step; each is replayed on real SecretKey and SecretSubkey packets with rotating passwords (ASCII, empty, non-UTF-8, 300 octets), S2K parameters, ciphers and AEAD modes, usage 255 / legacy packets from an independent encoder, comparing verdict, usage octet and unlocked material after every step.",
+   'DESIGN.md 5/C08', TECH),
 }
 checks = []
 for p in props:
